@@ -60,6 +60,10 @@ func hexs(b []byte) string {
 	return string(out)
 }
 
+// restoreVars: snapshot the variables to JSON and load them into a fresh VM — functions and computed values then have no
+// compiled code and are compiled lazily on first use (a different code path that must use the same generator)
+var restoreVars = false
+
 func seededVM(seed []byte, pre string) *ds.Context {
 	vm := &ds.Context{Seed: append([]byte{}, seed...)}
 	vm.Init()
@@ -69,6 +73,16 @@ func seededVM(seed []byte, pre string) *ds.Context {
 			defer func() { _ = recover() }()
 			_ = vm.Run(pre)
 		}()
+		if restoreVars {
+			if js, err := vm.Attrs.ToJSON(); err == nil {
+				vm2 := &ds.Context{Seed: append([]byte{}, seed...)}
+				vm2.Init()
+				allOn().apply(vm2)
+				if vm2.Attrs.UnmarshalJSON(js) == nil {
+					vm = vm2
+				}
+			}
+		}
 		// re-seed so that the history's own dice do not matter
 		src := &rand.PCGSource{}
 		_ = src.UnmarshalBinary(seed)
@@ -119,9 +133,10 @@ func init() {
 		sc.Buffer(make([]byte, 1<<20), 1<<26)
 		for sc.Scan() {
 			var in struct {
-				B64  string `json:"b64"`
-				Pre  string `json:"pre"`
-				Next string `json:"next"`
+				B64     string `json:"b64"`
+				Pre     string `json:"pre"`
+				Next    string `json:"next"`
+				Restore bool   `json:"restore"`
 			}
 			if json.Unmarshal(sc.Bytes(), &in) != nil {
 				continue
@@ -129,11 +144,32 @@ func init() {
 			raw, _ := base64.StdEncoding.DecodeString(in.B64)
 			pre, _ := base64.StdEncoding.DecodeString(in.Pre)
 			next, _ := base64.StdEncoding.DecodeString(in.Next)
+			restoreVars = in.Restore
 			sb := seedBytes(r)
+			// pin the package-level generator so that a dependence on it is DETERMINISTIC in the stability test below
+			pin := func(x uint64) {
+				var b16 [16]byte
+				for k := 0; k < 8; k++ {
+					b16[k], b16[8+k] = byte(x>>(8*k)), byte((x*7+1)>>(8*k))
+				}
+				_ = ds.VerifGlobalRandSource().UnmarshalBinary(b16[:])
+			}
+			pinSeed := r.u64()
+			pin(pinSeed)
 			a := c06Run(seededVM(sb, string(pre)), string(raw))
+			// the same again with NOTHING in between: a difference here is nondeterminism of the program itself
+			// (Go map order visible through dict iteration), not interference
+			unstable := false
+			for k := 0; k < 3 && !unstable; k++ {
+				pin(pinSeed)
+				if a2 := c06Run(seededVM(sb, string(pre)), string(raw)); a2 != a {
+					unstable = true
+				}
+			}
+			pin(pinSeed + 12345)
 			perturbGlobal(r)
 			b := c06Run(seededVM(sb, string(pre)), string(raw))
-			row := map[string]any{"a": a, "b": b, "same": a == b}
+			row := map[string]any{"a": a, "b": b, "same": a == b, "unstable": unstable}
 			// resume: continue on the same VM vs a fresh VM seeded from GetCurSeed
 			if a.Ok && len(next) > 0 {
 				vm1 := seededVM(sb, string(pre))
